@@ -209,7 +209,7 @@ func (g *genState) doc(label string) string {
 	}
 	docs := []string{"doc", "消息类型", "a b  c", "x,y;z{}", "// not a comment", "'q' \"dq\"", "100% %s", "tab\tinside"}
 	if !g.cfg.avoid("doc:multiline") {
-		docs = append(docs, "line1\nline2")
+		docs = append(docs, "line1\nline2", "first\n    indented\n\nafter blank", "a \"quote\nb // no comment\n", "\nleading break", "tab\n\tline")
 	}
 	return rapid.SampledFrom(docs).Draw(g.t, label+"_doc")
 }
